@@ -473,7 +473,9 @@ func tablePhrases(emit func(string)) {
 	sort.Strings(phrases)
 	for _, p := range phrases {
 		lp := strings.ToLower(p)
-		for _, f := range []string{"%s", "1 %s 1", "%s(1)", "x' %s 'y", "1 %s", "%s 1", "@v %s foo", "1;%s x"} {
+		for _, f := range []string{"%s", "1 %s 1", "%s(1)", "x' %s 'y", "1 %s", "%s 1", "@v %s foo", "1;%s x",
+			// attack contexts in which the class of the merged phrase decides the verdict
+			"x' %s 'utc' is null --", "1 %s 'utc' or 1", "1) or %s=1 --", "1 or 1=1 %s 1", "1 union select %s", "1' or %s --", "1 and %s(1)", "x' or 1 %s 1 --"} {
 			emit(fmt.Sprintf(f, p))
 			emit(fmt.Sprintf(f, lp))
 		}
